@@ -34,6 +34,20 @@ namespace Lin
 @[simp] theorem Mat.of_get {α : Type} {n m : Nat} (f : Fin n → Fin m → α) (i : Fin n) (j : Fin m) :
     (Mat.of f).get i j = f i j := rfl
 
+/-- a common factor moves out of the left-to-right sum (ℝ) -/
+theorem vsum_mul_left (s : ℝ) : ∀ (n : Nat) (g : Fin n → ℝ), vsum n (fun l => s * g l) = s * vsum n g
+  | 0, _ => by simp [vsum]
+  | n + 1, g => by
+      simp only [vsum]
+      rw [vsum_mul_left s n]
+      ring
+
+/-- the C++ evaluates `s * A * B` as `(s·A)·B` (so does the model); over ℝ that is `s·(A·B)` -/
+theorem mmul_msmul_get {n k m : Nat} (s : ℝ) (A : Mat ℝ n k) (B : Mat ℝ k m) (i : Fin n) (j : Fin m) :
+    (mmul (msmul s A) B).get i j = s * (mmul A B).get i j := by
+  simp only [mmul, msmul, Mat.of_get, mul_assoc]
+  exact vsum_mul_left s k _
+
 end Lin
 
 @[simp] theorem Scalar.nat_real (n : Nat) : (Scalar.nat n : ℝ) = (n : ℝ) := rfl
